@@ -128,7 +128,15 @@ def case_vibrability(ctx, rng):
     om = rng.uniform(0.2, 5.0, size=nm)
     ev = Q[:, :nm]
     info = lambda: {"N": N, "d": d, "modes": nm}  # noqa: E731
-    ok, res = ctx.call("vibrability", vibrability, om.copy(), ev.copy(), N, data=info)
+    vf = "vib_out.npy" if rng.random() < 0.3 else ""
+    evin = np.asfortranarray(ev) if (N + nm) % 3 == 0 else ev.copy()          # scipy.linalg.eigh hands out Fortran-ordered eigenvectors
+    ok, res = ctx.call("vibrability", vibrability, om.copy(), evin, N, vf, data=info)
+    if ok:
+        ctx.check("vibrability", np.array_equal(np.asarray(evin), ev), "vibrability/input_modified", "the eigenvector matrix was modified", info)
+    if ok and vf:
+        ctx.check("vibrability", os.path.exists(vf) and np.array_equal(np.load(vf), np.asarray(res)), "vibrability/file", "saved file differs from the returned array", info)
+    if vf and os.path.exists(vf):
+        os.remove(vf)
     ctx.case(f"vibrability/{d}D", om, ev, nontrivial=True)
     if ok:
         exp = np.zeros(N)
